@@ -140,6 +140,10 @@ var edTuples = []edArgs{
 	{"alias", DecJ{Coef: "25", Exp: -1}, DecJ{Coef: "15", Exp: -1}, true},
 }
 
+// trap sets and flag sets of the SetTraps / PresetFlags pseudo-steps
+var edRetraps = []apd.Condition{0, apd.Inexact, apd.Inexact | apd.Rounded, apd.DefaultTraps}
+var edPresets = []apd.Condition{apd.Inexact | apd.Rounded, apd.DivisionByZero, apd.Subnormal}
+
 type edStep struct {
 	W string `json:"wrapper"`
 	T int    `json:"tuple"`
@@ -234,6 +238,23 @@ func edRun(traps apd.Condition, path []edStep) (state string, msg string) {
 	mErr := false
 	var mFlags apd.Condition
 	for i, st := range path {
+		// user actions on the exported fields: the accumulated Flags may be carried over from elsewhere and
+		// the Context's trap set may change between calls; Err() is documented as "the first error encountered
+		// or the context's trap error if present", so flags that are (now) trapped are an error
+		if st.W == "SetTraps" || st.W == "PresetFlags" {
+			if st.W == "SetTraps" {
+				traps = edRetraps[st.T]
+				ctx.Traps = traps
+			} else {
+				ed.Flags |= edPresets[st.T]
+				mFlags |= edPresets[st.T]
+			}
+			mErr = mErr || mFlags&(traps|sysFlags) != 0
+			if (ed.Err() != nil) != mErr {
+				return "", fmt.Sprintf("step %d %s: Err()=%v, model error=%v (flags %s, traps %s)", i, st.W, ed.Err(), mErr, ref.FlagNames(int(mFlags)), ref.FlagNames(int(traps)))
+			}
+			continue
+		}
 		tu := edTuples[st.T]
 		mkd := func() (d, x, y *apd.Decimal) {
 			x, y = tu.x.Build(), tu.y.Build()
@@ -279,7 +300,7 @@ func edRun(traps apd.Condition, path []edStep) (state string, msg string) {
 			return "", fmt.Sprintf("step %d %s(%s): Err()=%v, model error=%v (flags %s, traps %s)", i, st.W, tu.name, ed.Err(), mErr, ref.FlagNames(int(mFlags)), ref.FlagNames(int(traps)))
 		}
 	}
-	return fmt.Sprintf("err=%v flags=%#x", mErr, uint32(mFlags)), ""
+	return fmt.Sprintf("err=%v flags=%#x traps=%#x", mErr, uint32(mFlags), uint32(traps)), ""
 }
 
 func c03Run(e *core.Env) {
@@ -397,12 +418,18 @@ func c03Run(e *core.Env) {
 			alphabet = append(alphabet, edStep{w, t})
 		}
 	}
+	for t := range edRetraps {
+		alphabet = append(alphabet, edStep{"SetTraps", t})
+	}
+	for t := range edPresets {
+		alphabet = append(alphabet, edStep{"PresetFlags", t})
+	}
 	depth := 3
 	for ti, tr := range trapsB {
 		_ = ti
 		// every worker explores the sub-graph below its own share of first steps (local state merging;
 		// states reached by several workers are explored more than once, which is sound)
-		seen := map[string][]edStep{"err=false flags=0x0": nil}
+		seen := map[string][]edStep{fmt.Sprintf("err=false flags=0x0 traps=%#x", uint32(tr)): nil}
 		frontier := [][]edStep{nil}
 		for lvl := 0; lvl < depth; lvl++ {
 			var next [][]edStep
@@ -494,7 +521,7 @@ func init() {
 	core.Register(&core.Prop{
 		ID:    "C03",
 		Title: "Traps turn raised conditions into errors and never change or hide results",
-		Rule:  "Part A: every (operation x operands x context) case is executed under the empty trap set and under every trap set of the lattice (80 sets, all 4096 on a core of cases / everywhere for single-rounding operations in the thorough tier); trapped => error, no error => identical result and flags, single-rounding: error iff trapped or system limit with the result delivered alongside. Part B: explicit-state BFS of the ErrDecimal machine (state = error set, accumulated Flags) over 21 wrappers x 7 argument tuples x 3 trap sets to depth 3 plus all length-2 sequences, each transition compared with a two-field model that calls the Context operation of the same name. Non-trivial = the untrapped run raises at least one condition",
+		Rule:  "Part A: every (operation x operands x context) case is executed under the empty trap set and under every trap set of the lattice (80 sets, all 4096 on a core of cases / everywhere for single-rounding operations in the thorough tier); trapped => error, no error => identical result and flags, single-rounding: error iff trapped or system limit with the result delivered alongside. Part B: explicit-state BFS of the ErrDecimal machine (state = error set, accumulated Flags, current trap set) over 21 wrappers x 7 argument tuples + 4 SetTraps + 3 PresetFlags pseudo-steps (user writes to the exported Ctx.Traps / Flags fields) x 3 initial trap sets to depth 3 plus all length-2 sequences, each transition compared with a two-field model that calls the Context operation of the same name. Non-trivial = the untrapped run raises at least one condition",
 		Bounds: func(tier string) string {
 			return fmt.Sprintf("Part A: %d operands (special alphabet + finite + package limits) x 22 operations x 6 contexts x (80 | 4096) trap sets; Part B: %d-letter alphabet, depth 3 with state merging + %d unmerged length-2 sequences x 3 trap sets", len(c03Operands()), len(edWrappers)*len(edTuples), len(edWrappers)*len(edTuples)*len(edWrappers)*len(edTuples))
 		},
